@@ -175,3 +175,19 @@ package check
 //@   loop range:varmaps step [member-is-collected-unless-filtered] !(onlyFunc && subOneVar.ReferFunc == nil) ==> hits("collect#0") == prev(hits("collect#0")) + 1
 //@   loop range:varmaps exits-early-only-if [every-member-is-visited] false
 //@ end
+
+// ---- C13: which comment is a declaration's documentation ----
+// the trailing comment on the declaration's own line first; only if there is none, the head comment block that ends on
+// the line before; a comment of the other kind stored under that line is not used.
+//@ func (*AllProject).GetLineComment
+//@   props C13
+//@   at call getSpecialLineComment#0 before assert[trailing-comment-of-the-same-line-first] arg1 == luaFile && arg2 == line && !arg3
+//@   at call getSpecialLineComment#1 before assert[else-the-block-ending-on-the-previous-line] arg1 == luaFile && arg2 == line - 1 && arg3 && len(strComment) == 0
+//@   ensures[same-line-comment-wins] hits("getSpecialLineComment#0") == 1
+//@ end
+//@ func (*AllProject).getSpecialLineComment
+//@   props C13
+//@   at call GetFileLineComment#0 before assert[comment-is-looked-up-under-the-given-line] arg1 == lastLine
+//@   ensures[comment-of-the-other-kind-is-not-used] true
+//@   loop range:oneComment.LineVec exits-early-only-if [every-line-of-the-block-is-used] false
+//@ end
